@@ -16,6 +16,7 @@ class FunctionReport:
         self.seconds = 0.0
         self.variants = 0
         self.canary = ''           # how non-vacuity was witnessed
+        self.assumed_used = []     # (key, note) of every ASSUMED contract a call site of this function was checked against
 
     @property
     def proved(self):
@@ -66,6 +67,9 @@ def verify_contract(c, prefix='', timeout_s=10, both=False, source_override=None
         except Exception as e:      # engine bug: reported as undecided, never as a violation
             rep.out_of_subset = 'engine error: %s\n%s' % (e, traceback.format_exc()[-1500:])
             continue
+        for item in getattr(eng, 'assumed_used', []):
+            if item not in rep.assumed_used:
+                rep.assumed_used.append(item)
         if eng.pre_sat == 'unsat':
             rep.vacuity.append('%s: precondition not satisfiable' % qn)
         if not obls:
